@@ -842,11 +842,13 @@ pub struct ProxyOpts {
     pub batch: u8,
     pub nodes_v2: bool,
     pub password: Option<String>,
+    /// max_redirections of the proxy when active redirection is on (0 = the default 4)
+    pub max_redirections: u8,
 }
 
 impl Default for ProxyOpts {
     fn default() -> Self {
-        ProxyOpts { backend_conn_num: 1, active_redirection: false, batch: 0, nodes_v2: false, password: None }
+        ProxyOpts { backend_conn_num: 1, active_redirection: false, batch: 0, nodes_v2: false, password: None, max_redirections: 0 }
     }
 }
 
@@ -866,7 +868,7 @@ impl ProxyNode {
             thread_number: NonZeroUsize::new(1).expect("nz"),
             backend_conn_num: NonZeroUsize::new(opts.backend_conn_num.max(1)).expect("nz"),
             active_redirection: opts.active_redirection,
-            max_redirections: if opts.active_redirection { NonZeroUsize::new(4) } else { None },
+            max_redirections: if opts.active_redirection { NonZeroUsize::new(if opts.max_redirections == 0 { 4 } else { opts.max_redirections as usize }) } else { None },
             default_redirection_address: None,
             backend_batch_strategy: match opts.batch {
                 0 => BatchStrategy::Disabled,
